@@ -282,6 +282,8 @@ class PeriodicReal:
     wall (IOLoop.time) and monotonic (asyncio loop) virtual clocks.  Deadlines are observed where
     PeriodicCallback hands them to IOLoop.add_timeout."""
 
+    MAX_SCHED = 400
+
     def __init__(self, cfg, variant=0):
         from tornado.ioloop import PeriodicCallback
         self.tick, self.w0, how = PERIODIC_SCALES[variant % len(PERIODIC_SCALES)]
@@ -303,9 +305,14 @@ class PeriodicReal:
         self.pending = []
 
         def add_timeout(deadline, callback, *a, **kw):
+            if len(self.sched) >= self.MAX_SCHED:
+                # a PeriodicCallback that keeps rescheduling without the clock moving (livelock):
+                # cut it off; the over-long `sched` is the observation
+                raise RuntimeError("harness: more than %d add_timeout calls" % self.MAX_SCHED)
             self.sched.append(self._to_ticks(deadline))
             h = real_add(deadline, callback, *a, **kw)
             self.pending.append(h)
+            del self.pending[:-16]
             return h
         self.io.add_timeout = add_timeout
         kind = cfg["kind"]
